@@ -237,3 +237,17 @@ func vfIteU8(c bool, a, b uint8) uint8 {
 }
 
 func vfShow(label string, v uint32) {}
+
+// ---- goroutine mode (gse: cooperative scheduler with virtual time; native: real goroutines) ----
+
+func vfGoroutineMode(preemptions int, asyncTimers bool) {}
+
+// vfQuiesce: gse runs every other goroutine until all are blocked, letting virtual time advance
+// by at most maxAdvanceNs; natively real time passes.
+func vfQuiesce(maxAdvanceNs int) {
+	time.Sleep(time.Duration(maxAdvanceNs) + 60*time.Millisecond)
+}
+func vfNowNs() int64             { return time.Now().UnixNano() }
+func vfLiveGoroutines() int      { return 0 }
+func vfBlockedAt(sub string) int { return 0 }
+func vfPendingTimers() int       { return 0 }
